@@ -209,6 +209,10 @@ def space(tier):
     # broadcast rule: template with more rows than the schedule
     parts.append(Tagged("match", Product([(2, 2, 1)], power([-1, 0, 1, 2], 4), power([-1, 0, 1, 2], 2))))
     parts.append(Tagged("match", Product([(3, 2, 2)], power([0, 1, 2], 6), power([0, 1, 2], 4))))
+    # the schedule operand has MORE result rows than the template operand (higher-rank operand): every row counts
+    parts.append(Tagged("match", Product([(1, 2, 2)], power([-1, 0, 1, 2], 2), power([-1, 0, 1, 2], 4))))
+    parts.append(Tagged("match", Product([(2, 2, 3)], power([0, 1, 2], 4), power([0, 1, 2], 6))))
+    parts.append(Tagged("match", Product([(1, 3, 2)], power([-1, 0, 1, 2], 3), power([0, 1, 2], 6))))
     # (g) the scheduler PASS on modules with one, two (every ordered pair) and three operations
     mods = [(a,) for a in MOD_SHAPES] + [(a, b) for a in MOD_SHAPES for b in MOD_SHAPES] + [(a, b, a) for a in MOD_SHAPES[:4] for b in MOD_SHAPES[:4]]
     parts.append(Tagged("module", Product(mods)))
